@@ -142,3 +142,15 @@ F('parse_url_impl_agg_0', 'ada::parser::parse_url_impl', mangled=r'_ZN3ada6parse
 F('parse_url_impl_url_1', 'ada::parser::parse_url_impl', mangled=r'_ZN3ada6parser14parse_url_implINS_3urlELb1EEE.*')
 F('try_parse_simple_absolute_agg', 'ada::parser::try_parse_simple_absolute', mangled=r'_ZN3ada6parser25try_parse_simple_absoluteINS_14url_aggregatorEEE.*')
 F('try_parse_simple_absolute_url', 'ada::parser::try_parse_simple_absolute', mangled=r'_ZN3ada6parser25try_parse_simple_absoluteINS_3urlEEE.*')
+
+# ---- C API (src/ada_c.cpp): the url part
+F('get_instance', 'get_instance', mangled=r'_Z12get_instancePv')
+for _w in ['ada_is_valid', 'ada_get_href', 'ada_get_username', 'ada_get_password', 'ada_get_port', 'ada_get_hash', 'ada_get_host', 'ada_get_hostname',
+           'ada_get_pathname', 'ada_get_search', 'ada_get_protocol', 'ada_get_host_type', 'ada_get_scheme_type', 'ada_set_href', 'ada_set_host',
+           'ada_set_hostname', 'ada_set_protocol', 'ada_set_username', 'ada_set_password', 'ada_set_port', 'ada_set_pathname', 'ada_set_search',
+           'ada_set_hash', 'ada_clear_port', 'ada_clear_hash', 'ada_clear_search', 'ada_has_credentials', 'ada_has_empty_hostname', 'ada_has_hostname',
+           'ada_has_non_empty_username', 'ada_has_non_empty_password', 'ada_has_port', 'ada_has_password', 'ada_has_hash', 'ada_has_search',
+           'ada_get_components', 'ada_string_create', 'ada_copy', 'ada_free', 'ada_get_origin', 'ada_free_owned_string', 'ada_parse', 'ada_parse_with_base',
+           'ada_can_parse', 'ada_can_parse_with_base']:
+    F(_w, _w)
+F('agg_get_origin', A + 'get_origin', cls='agg', mangled=r'_ZNK3ada14url_aggregator10get_originB5cxx11Ev')
